@@ -171,6 +171,12 @@ func c18SubquerySeed(r *core.Rng) string {
 		return "t1" + pick("", " a", " AS a")
 	}
 	sel := pick("COUNT(*)", "DISTINCT c1", "MAX(t1.id)", "c1", "LISTAGG(c1, ',') WITHIN GROUP (ORDER BY c1 DESC NULLS LAST)", "id", "RANK() OVER (PARTITION BY c1 ORDER BY id DESC NULLS FIRST)", "SUM(id) OVER (ORDER BY id ROWS BETWEEN 1 PRECEDING AND UNBOUNDED FOLLOWING)", "*")
+	gather := r.P(45)
+	if gather {
+		// the whole column of the query is gathered into one value, so that a clause lost in print (ties, an offset, a sort
+		// direction, a set operator) shows when the printed sub-query is evaluated
+		sel = pick("t1.id AS x", "t1.c1 AS x", "COUNT(*) AS x", "MAX(t1.id) AS x", "t1.id + 1 AS x", "DISTINCT t1.c1 AS x")
+	}
 	q := "SELECT " + sel + " FROM " + join()
 	if r.P(40) {
 		q += " WHERE " + pick("id > 1", "c1 IS NOT NULL", "id IN (SELECT id FROM t2)", "EXISTS (SELECT 1 FROM t2)", "id BETWEEN 1 AND 2", "c1 LIKE 'a%'", "NOT id = ANY (SELECT id FROM t2)")
@@ -178,14 +184,23 @@ func c18SubquerySeed(r *core.Rng) string {
 	if r.P(30) {
 		q += " GROUP BY " + pick("c1", "c1, id") + pick("", " HAVING COUNT(*) > 1")
 	}
-	if r.P(40) {
-		q += " ORDER BY " + pick("id", "id DESC", "id ASC NULLS LAST", "c1 DESC NULLS FIRST, id", "1", "id DESC NULLS FIRST", "c1 ASC NULLS LAST, id DESC NULLS FIRST", "id NULLS LAST")
+	ordered := r.P(40)
+	if gather && r.P(50) {
+		// ties at the cut: a sort key that several rows share, a row count with WITH TIES written without a unit / with one
+		q += " ORDER BY " + pick("c1", "c1 DESC", "t1.c1 NULLS LAST", "1") + " " + pick("LIMIT 1 WITH TIES", "LIMIT 2 WITH TIES", "LIMIT 1 ROW WITH TIES", "LIMIT 3 ROWS WITH TIES", "LIMIT 30 PERCENT WITH TIES", "LIMIT 1 WITH TIES OFFSET 1", "FETCH FIRST 1 ROW WITH TIES", "OFFSET 1 ROWS FETCH NEXT 1 ROW WITH TIES", "LIMIT 2", "LIMIT 1 ROW ONLY")
+		return "SELECT (SELECT LISTAGG(x, ';') FROM (" + q + ") s)" + pick("", " AS y", ", 1")
+	}
+	if ordered {
+		q += " ORDER BY " + pick("id", "id DESC", "id ASC NULLS LAST", "c1 DESC NULLS FIRST, id", "1", "c1", "c1 DESC", "1 DESC", "id DESC NULLS FIRST", "c1 ASC NULLS LAST, id DESC NULLS FIRST", "id NULLS LAST")
 	}
 	if r.P(40) {
-		q += " " + pick("LIMIT 1", "LIMIT 50 PERCENT", "LIMIT 1 WITH TIES", "LIMIT 10 PERCENT WITH TIES", "LIMIT 1 OFFSET 1", "OFFSET 1", "FETCH FIRST 1 ROW ONLY", "OFFSET 1 ROW FETCH NEXT 2 ROWS WITH TIES", "FETCH FIRST 10 PERCENT ROWS ONLY")
+		q += " " + pick("LIMIT 1", "LIMIT 50 PERCENT", "LIMIT 1 WITH TIES", "LIMIT 2 WITH TIES", "LIMIT 2 ROWS WITH TIES", "LIMIT 2 ROWS ONLY", "LIMIT 10 PERCENT WITH TIES", "LIMIT 1 OFFSET 1", "LIMIT 1 WITH TIES OFFSET 1", "OFFSET 1", "OFFSET 2 ROWS", "FETCH FIRST 1 ROW ONLY", "OFFSET 1 ROW FETCH NEXT 2 ROWS WITH TIES", "FETCH FIRST 10 PERCENT ROWS ONLY")
 	}
 	if r.P(20) {
 		q = q + " " + pick("UNION", "UNION ALL", "EXCEPT", "EXCEPT ALL", "INTERSECT", "INTERSECT ALL") + " SELECT " + pick("1", "id FROM t2", "c1 FROM t1 NATURAL LEFT JOIN t2")
+	}
+	if gather {
+		return "SELECT (SELECT LISTAGG(x, ';') FROM (" + q + ") s)" + pick("", " AS y", ", 1")
 	}
 	if r.P(15) {
 		q = "WITH " + pick("", "RECURSIVE ") + "w (n) AS (SELECT 1" + pick("", " UNION ALL SELECT n + 1 FROM w WHERE n < 3") + ") " + q
